@@ -27,7 +27,7 @@ func init() {
 			"known fixed-length meta events are generated with their spec length (tempo 3 bytes non-zero, etc.)",
 			"header length is 6 (statement)",
 		},
-		Require: []string{"many_unknown_chunk_files", "huge_unknown_chunk_files", "reads_with_eof_delivered_with_data", "files", "feat:running_status", "feat:padded_vlq", "feat:f0_without_f7", "feat:f7_packet", "feat:unknown_meta", "feat:long_payload", "feat:alien_before", "feat:alien_between", "feat:alien_after", "feat:smpte", "decoder_crosschecks", "events_compared", "messages_classified", "pipe_reads", "reads_with_log_option", "appends_to_read_messages", "rereads_after_in_place_edit_of_the_first_result"},
+		Require: []string{"many_unknown_chunk_files", "huge_unknown_chunk_files", "reads_with_eof_delivered_with_data", "files", "feat:running_status", "feat:padded_vlq", "feat:f0_without_f7", "feat:f7_packet", "feat:unknown_meta", "feat:long_payload", "feat:alien_before", "feat:alien_between", "feat:alien_after", "feat:smpte", "decoder_crosschecks", "events_compared", "messages_classified", "pipe_reads", "reads_with_log_option", "appends_to_read_messages", "files_with_more_than_65536_events", "rereads_after_in_place_edit_of_the_first_result"},
 		UsesCur: true,
 		Run:     runC02,
 	})
@@ -210,6 +210,31 @@ func c02Check(c *mon.Ctx, f *ref.EncFile, label string) {
 	c.Count("messages_classified", int64(n))
 }
 
+// c02CheckLarge is the core of c02Check for files too large to carry around as hex: read, compare with the ground truth.
+func c02CheckLarge(c *mon.Ctx, f *ref.EncFile, label string) {
+	b := f.Bytes(nil)
+	truth := f.Truth()
+	in := map[string]any{"case": label, "len": len(b), "first bytes": mon.Hex(head(b, 200))}
+	s, err, panicked := readLib(c, "panic:ReadFrom", in, b)
+	if panicked {
+		return
+	}
+	c.Count("files", 1)
+	c.Eval(1)
+	c.DistinctBytes(b)
+	if err != nil {
+		c.Violation("read-error", fmt.Sprintf("ReadFrom rejects a spec-valid file (%s): %v", label, err), in, "value", err.Error())
+		return
+	}
+	if diff := ref.EqualFiles(truth, fromLib(s)); diff != "" {
+		c.Violation("content", fmt.Sprintf("ReadFrom differs from the specification decoder (%s): %s", label, diff), in, nil, nil)
+		return
+	}
+	for _, tr := range truth.Tracks {
+		c.Count("events_compared", int64(len(tr)))
+	}
+}
+
 func ev(delta uint32, msg ...byte) ref.EncEv { return ref.EncEv{Ev: ref.Ev{Delta: delta, Msg: msg}} }
 func eot(delta uint32) ref.EncEv             { return ref.EncEv{Ev: ref.Ev{Delta: delta, Msg: ref.EOT}} }
 
@@ -325,6 +350,41 @@ func runC02(c *mon.Ctx) {
 	// must not matter. The goroutine stack limit of the worker is lowered to 16 MiB (Go's default is 1 GB),
 	// so that work per skipped chunk that is kept on the stack shows after about a million chunks instead
 	// of tens of millions; a fatal stack overflow kills the worker and is attributed to this case.
+	// big files at byte level: hundreds of thousands of events of mixed sizes with running status here and there
+	c.Each("many-events", c.N(6, 60), func(i int64, r *mon.Rand) {
+		nt := r.Pick(1, 1, 2, 4)
+		total := r.Pick(70_000, 120_000, 300_000)
+		lead := int(i) % 7
+		f := &ref.EncFile{Format: 1, Division: 480, NTracks: -1}
+		for t := 0; t < nt; t++ {
+			var tr []ref.EncEv
+			for k := 0; k < lead && t == 0; k++ {
+				tr = append(tr, ref.EncEv{Ev: ref.Ev{Delta: 0, Msg: []byte{0xC0 | byte(k), byte(k + 1)}}})
+			}
+			var prev byte
+			for k := 0; k < total/nt; k++ {
+				var m []byte
+				switch x := r.Intn(40); {
+				case x == 0:
+					m = []byte{0xC0 | byte(r.Intn(16)), byte(r.Intn(128))}
+				case x == 1:
+					m = []byte{0xD0 | byte(r.Intn(16)), byte(r.Intn(128))}
+				case x == 2 && k%50 == 0:
+					m = ref.Meta(0x06, []byte{byte(k), byte(k >> 8)})
+				default:
+					m = []byte{0x90 | byte(k>>3&15), byte(k & 127), byte(k >> 7 & 127)}
+				}
+				rs := m[0] == prev && m[0] < 0xF0 && r.Bool()
+				tr = append(tr, ref.EncEv{Ev: ref.Ev{Delta: uint32(k & 3), Msg: m}, RS: rs})
+				prev = m[0]
+			}
+			tr = append(tr, ref.EncEv{Ev: ref.Ev{Delta: uint32(t), Msg: ref.EOT}})
+			f.Tracks = append(f.Tracks, tr)
+		}
+		c02CheckLarge(c, f, fmt.Sprintf("many-events %d: %d tracks, %d events, %d program changes first", i, nt, total, lead))
+		c.Count("files_with_more_than_65536_events", 1)
+	})
+
 	c.Each("many-unknown-chunks", c.N(3, 6), func(i int64, r *mon.Rand) {
 		old := debug.SetMaxStack(16 << 20)
 		defer debug.SetMaxStack(old)
